@@ -57,7 +57,7 @@ TRUSTED = [
     "uses a private stream (checked on every run by replaying the recorded global-stream calls)",
 ]
 ASSUMPTIONS = [
-    "main theorems assume distinct file names among the readable files (the violation for repeated names is a reported finding)",
+    "theorems about the bare fold assume distinct readable file names; the constructors guarantee it (select_nodup)",
     "h5 files are not modified between construction and access",
     "`render` (blob image, sensitivity maps, FFT) is a deterministic function of the drawn values — checked bit-for-bit on "
     "the implementation by the oracle, not proved",
@@ -71,8 +71,7 @@ RULE = ("h5 pools: files with 1..9 slices, content value = 1000*file + slice; da
         "least 2 readable files and (a filter or context >= 1) for h5 cases, every dataset/cmr construction case, >= 2 members "
         "for concat cases, a multi-coil or zero-slice access for RNG cases, any oracle case; distinct = distinct protocol line / "
         "oracle case key")
-PENDING_FINDINGS: list[str] = ["directory-listing-order-unsorted", "duplicate-filenames-ranges-not-partition",
-                               "cmrxrecon-config-regex-filter-typeerror"]
+PENDING_FINDINGS: list[str] = []
 
 for _n in ("H5SliceData", "FakeMRIBlobsDataset", "SheppLoganDataset", "ConcatDataset", "FakeMRIData", "direct",
            "FastMRIDataset", "CalgaryCampinasDataset", "CMRxReconDataset"):
@@ -491,10 +490,12 @@ def _gen_cmr_case(rng: pyrandom.Random, W: World):
         kw = dict(data_root=W.cmr)
     else:
         ids = rng.sample(ids_all + [MISSING], rng.randint(0, 5))
+        if ids and rng.random() < 0.15:
+            ids.insert(rng.randrange(len(ids) + 1), rng.choice(ids))        # a repeated name
         kw = dict(data_root=W.cmr, filenames_filter=[W.cmr / f"vol{f:03d}.mat" for f in ids])
     kw.update(kspace_context=ctx, compute_mask=rng.random() < 0.3)
     shp = {**W.cmr_shape, MISSING: (-1, -1)}
-    total = sum({None: a * b, "slice": a, "time": b}[ctx] for a, b in (shp[f] for f in ids) if a > 0)
+    total = sum({None: a * b, "slice": a, "time": b}[ctx] for a, b in (shp[f] for f in set(ids)) if a > 0)
     idxs = list(range(-total - 1, total + 1))
     groups = [[{None: 0, "slice": 1, "time": 2}[ctx], int("filenames_filter" in kw)], ids, [shp[f][0] for f in ids], [shp[f][1] for f in ids], idxs]
     return {"kw": kw, "ctx": ctx, "groups": groups, "idxs": idxs,
@@ -723,10 +724,25 @@ def _perturb(rng: pyrandom.Random):
     pyrandom.seed(rng.randrange(2 ** 31))
 
 
+def _arr_same(ka, kb) -> bool:
+    """bit-identical arrays; a shape or dtype difference is a difference (never an exception)"""
+    ka, kb = np.asarray(ka), np.asarray(kb)
+    return ka.shape == kb.shape and ka.dtype == kb.dtype and np.ascontiguousarray(ka).tobytes() == np.ascontiguousarray(kb).tobytes()
+
+
+def _arr_diff(ka, kb) -> str:
+    ka, kb = np.asarray(ka), np.asarray(kb)
+    if ka.shape != kb.shape or ka.dtype != kb.dtype:
+        return f"shape/dtype {tuple(ka.shape)} {ka.dtype} vs {tuple(kb.shape)} {kb.dtype}"
+    try:
+        return f"max abs diff {float(np.abs(ka - kb).max()):.3g}"
+    except Exception:  # noqa: BLE001
+        return "contents differ"
+
+
 def _same(a: dict, b: dict) -> bool:
-    ka, kb = a["kspace"], b["kspace"]
-    return (str(a["filename"]) == str(b["filename"]) and a["slice_no"] == b["slice_no"] and ka.shape == kb.shape
-            and ka.dtype == kb.dtype and ka.tobytes() == kb.tobytes())
+    return (str(a["filename"]) == str(b["filename"]) and a["slice_no"] == b["slice_no"]
+            and _arr_same(a["kspace"], b["kspace"]))
 
 
 def _ref_window(P: Pool, fid: int, s: int, c: int) -> list[int]:
@@ -906,6 +922,7 @@ def oracle(ctx: Ctx, deep: bool = False):
             yield Violation("shepp-ranges-not-a-partition", "SheppLoganDataset.volume_indices is not range(0, len)", rep)
         zero = [bool(np.allclose(ds.sample_image(i), 0)) for i in range(len(ds))]
         yield from _repro(ds, twin, rng, rep, "shepp", lambda i: zero[i])
+    yield from _oracle_interleaved(ctx, deep)
     yield from _oracle_phase2(ctx, deep)
 
 
@@ -980,6 +997,16 @@ def _oracle_phase2(ctx: Ctx, deep: bool):
             for nm in order:
                 shutil.copy(W.main / nm, tmp / sub / nm)
             maps.append(_mapping(H5SliceData(root=tmp / sub)))
+        cm = []
+        for sub, order in (("ma", sorted(W.cmr_shape)), ("mb", sorted(W.cmr_shape, reverse=True))):
+            (tmp / sub).mkdir()
+            for f in order:
+                shutil.copy(W.cmr / f"vol{f:03d}.mat", tmp / sub / f"vol{f:03d}.mat")
+            cm.append(_mapping(CMRxReconDataset(data_root=tmp / sub)))
+        if cm[0] != cm[1] or [v[0] for v in cm[0][1]] != sorted(v[0] for v in cm[0][1]):
+            yield Violation("directory-listing-order-unsorted", "CMRxReconDataset built from data_root alone orders the volumes as "
+                            "the operating system lists the directory", {"op": "listing-order", "class": "CMRxReconDataset",
+                                                                          "volume_order_per_directory": [[v[0] for v in m[1]] for m in cm]})
         ctx.count(("listing-order", base), True, bucket="oracle/listing-order")
         want = [nm for nm in sorted(names)]
         got = [[v[0] for v in m[1]] for m in maps]
@@ -997,7 +1024,8 @@ def _oracle_phase2(ctx: Ctx, deep: bool):
         (W.lists / "d2.lst").write_text("vol005.h5\nvol003.h5\n")
         ds = H5SliceData(root=W.main, **kw)
         ctx.count(("duplicate", what), True, bucket="oracle/duplicate-names")
-        if not _partition_ok(ds):
+        want_order = ["vol003.h5", "vol004.h5"] if what == "filenames_filter" else ["vol003.h5", "vol004.h5", "vol005.h5"]
+        if not _partition_ok(ds) or [v[0] for v in _mapping(ds)[1]] != want_order:
             yield Violation("duplicate-filenames-ranges-not-partition",
                             f"a file named twice in {what}: its slices are in the dataset twice but volume_indices keeps one "
                             f"range per name, so the ranges no longer partition 0..len-1",
@@ -1020,8 +1048,7 @@ def _oracle_phase2(ctx: Ctx, deep: bool):
             sel_ids, ordered = sorted(_name_id(p) for p in os.listdir(root) if p.endswith(".h5")), False
         if "regex_filter" in kw:
             sel_ids = [f for f in sel_ids if re.match(kw["regex_filter"], str(pathlib.Path(root) / f"vol{f:03d}.h5"))]
-        if len(set(sel_ids)) < len(sel_ids):
-            continue                                           # repeated names: finding (b)
+        sel_ids = list(dict.fromkeys(sel_ids))                 # a file is one volume: repeated names count once (first kept)
         nn = W.cc_n if case["cls"] == "calgary" else W.n
         sel_ids = [f for f in sel_ids if nn.get(f, -1) > 0]
         try:
@@ -1074,9 +1101,6 @@ def _oracle_phase2(ctx: Ctx, deep: bool):
                     break
     for t in range(ctx.budget(12, 100)):
         case = _gen_cmr_case(rng, W)
-        ids = case["groups"][1]
-        if len(set(ids)) < len(ids):
-            continue
         ds = CMRxReconDataset(**case["kw"])
         ctx.count(("cmr", case["bucket"], t), True, bucket="oracle/" + case["bucket"])
         rep = {"op": "cmr", "kwargs": {k: str(v) for k, v in case["kw"].items()}}
@@ -1176,6 +1200,91 @@ def _oracle_phase2(ctx: Ctx, deep: bool):
                             {"op": "hashseed", "PYTHONHASHSEED": hs})
 
 
+_INTERLEAVE_FIXED = [
+    # (sample_size, num_coils, spatial_shape, seed): objects share the default file names sample00001, …
+    [(2, 2, (3, 6, 5), 10), (2, 2, (3, 6, 5), 11)],                       # training / validation sets of a toy config
+    [(2, 2, (3, 6, 5), 10), (2, 1, (3, 6, 5), 10), (1, 2, (2, 4, 5), 10)],  # other coil count / other shape
+    [(2, 2, (6, 5), 10), (2, 2, (6, 5), 11), (2, 3, (4, 4), 10)],           # 2-D
+    [(1, 2, (2, 4, 4), 3), (2, 2, (4, 4), 3)],                              # 2-D and 3-D together
+]
+
+
+def _fake_reference(cfg, ds, i):
+    """what item i designates: slice `slice_no` of the volume generated from that sample's own seed (generator called
+    directly, independent of the dataset class)"""
+    from direct.data.fake import FakeMRIData
+
+    filename, slice_no, sample_seed = ds.data[i]
+    vol = FakeMRIData(ndim=len(cfg[2]))(sample_size=1, num_coils=cfg[1], spatial_shape=cfg[2], name=[filename], seed=sample_seed)[0]
+    return vol["kspace"][slice_no]
+
+
+def _interleave_case(cfgs, order_seed: int):
+    """several FakeMRIBlobsDataset objects accessed alternately; -> description of the first wrong item or None"""
+    from direct.data.datasets import FakeMRIBlobsDataset
+
+    r = pyrandom.Random(order_seed)
+    objs = [FakeMRIBlobsDataset(sample_size=c[0], num_coils=c[1], spatial_shape=c[2], seed=c[3]) for c in cfgs]
+    order = []
+    for i in range(max(len(o) for o in objs)):            # same index of every object in turn, then random alternation
+        order += [(k, i) for k, o in enumerate(objs) if i < len(o)]
+    order += [(k, r.randrange(len(objs[k]))) for k in (r.randrange(len(objs)) for _ in range(6 * len(objs)))]
+    refs: dict = {}
+    for step, (k, i) in enumerate(order):
+        got = objs[k][i]["kspace"]
+        if (k, i) not in refs:
+            refs[(k, i)] = _fake_reference(cfgs[k], objs[k], i)
+        if not _arr_same(got, refs[(k, i)]):
+            return {"object": k, "config": list(cfgs[k][:2]) + [list(cfgs[k][2]), cfgs[k][3]], "index": i, "step": step,
+                    "previous_access": list(order[step - 1]) if step else None, "difference": _arr_diff(got, refs[(k, i)])}
+    return None
+
+
+def _oracle_interleaved(ctx: Ctx, deep: bool):
+    from direct.data.datasets import SheppLoganDataset
+    from direct.data.h5_data import H5SliceData
+
+    rng = ctx.rng
+    groups = [list(g) for g in _INTERLEAVE_FIXED]
+    for _ in range(ctx.budget(4, 40) * (2 if deep else 1)):
+        three_d = rng.random() < 0.6
+        shp = (rng.choice([2, 3]), rng.choice([4, 6]), rng.choice([4, 5])) if three_d else (rng.choice([4, 6]), rng.choice([4, 5]))
+        g = [(rng.randint(1, 2), rng.choice([1, 2, 3]), shp, rng.randrange(100)) for _k in range(rng.randint(2, 3))]
+        if rng.random() < 0.5:
+            g.append((rng.randint(1, 2), rng.choice([1, 2]), (2, 4, 4) if not three_d else (4, 4), rng.randrange(100)))
+        groups.append(g)
+    for n, g in enumerate(groups):
+        ctx.count(("interleave", tuple(g)), True, bucket=f"oracle/interleaved-objects/{'3d' if any(len(c[2]) == 3 for c in g) else '2d'}")
+        bad = _interleave_case(g, n)
+        if bad is not None:
+            yield Violation("fake-item-depends-on-other-objects",
+                            f"FakeMRIBlobsDataset objects accessed alternately: item {bad['index']} of object {bad['object']} is not the "
+                            f"slice of the volume generated from its own per-sample seed ({bad['difference']}) — state shared "
+                            f"between dataset objects",
+                            {"op": "interleave", "configs": [[c[0], c[1], list(c[2]), c[3]] for c in g], "order_seed": n, "first_wrong": bad})
+    # other classes: objects that share file names / slice indices, accessed alternately
+    W = world()
+    ctx.count(("interleave-h5",), True, bucket="oracle/interleaved-objects/h5")
+    a, b = H5SliceData(root=W.main, kspace_context=1), H5SliceData(root=W.extra, kspace_context=1)
+    for i in range(min(len(a), len(b), 12)):
+        for ds, off in ((a, 0), (b, 500000), (a, 0)):
+            it = ds[i]
+            ids_ = [v for v in window_ids(it["kspace"], 1) if v]
+            fid = _name_id(it["filename"])
+            if any(v // 1000 * 1000 != off + 1000 * fid for v in ids_) or off + 1000 * fid + it["slice_no"] not in ids_:
+                yield Violation("h5-item-depends-on-other-objects", "two H5SliceData objects over directories with the same file "
+                                "names, accessed alternately, return each other's data", {"op": "interleave-h5", "index": i})
+    ctx.count(("interleave-shepp",), True, bucket="oracle/interleaved-objects/shepp")
+    sl = [SheppLoganDataset(shape=(6, 6, 3), num_coils=c, intensity=t, seed=sd) for c, t, sd in ((2, "T1", 1), (2, "T1", 2), (1, "T2", 1), (3, "PROTON", 1))]
+    solo = [[SheppLoganDataset(shape=(6, 6, 3), num_coils=c, intensity=t, seed=sd)[i]["kspace"] for i in range(3)]
+            for c, t, sd in ((2, "T1", 1), (2, "T1", 2), (1, "T2", 1), (3, "PROTON", 1))]
+    for i in (0, 1, 2, 1, 0):
+        for k, ds in enumerate(sl):
+            if not _arr_same(ds[i]["kspace"], solo[k][i]):
+                yield Violation("shepp-item-depends-on-other-objects", "SheppLoganDataset objects accessed alternately return "
+                                "items that differ from the same object accessed alone", {"op": "interleave-shepp", "object": k, "index": i})
+
+
 def _repro(ds, twin, rng, rep, name, zero_slice):
     n = len(ds)
     first = {}
@@ -1190,7 +1299,7 @@ def _repro(ds, twin, rng, rep, name, zero_slice):
         if i in first and not _same(first[i], it):
             key = f"{name}-zero-slice-reload-differs" if zero_slice(i) else f"{name}-reload-differs"
             yield Violation(key, f"{type(ds).__name__}[{i}] loaded twice returns different k-space "
-                                 f"(max abs diff {float(np.abs(first[i]['kspace'] - it['kspace']).max()):.3g})",
+                                 f"({_arr_diff(first[i]['kspace'], it['kspace'])})",
                             dict(rep, mode="reload") if zero_slice(i) else dict(rep, index=i, mode="reload"))
         first.setdefault(i, it)
     for i in range(n):
@@ -1241,6 +1350,10 @@ def replay(rep: dict) -> bool:
                     (op != "build" or v.replay.get("name") == rep.get("name")):
                 return True
         return False
+    if op == "interleave":
+        return _interleave_case([(c[0], c[1], tuple(c[2]), c[3]) for c in rep["configs"]], rep["order_seed"]) is not None
+    if op in ("interleave-h5", "interleave-shepp"):
+        return any(v.replay.get("op") == op for v in _oracle_interleaved(Ctx(PROP, "quick", 0), False))
     if op == "fake-call":
         from direct.data.fake import FakeMRIData
 
